@@ -88,6 +88,26 @@ def run(prog, R):
         R.ob("C04.2-valid-prefix", f"{fn.split('::')[-1]}:{' '.join(toks)}", ok, prog.body(fn).at if fn in prog.bodies else "",
              f"`{ex.get(toks, '?')}`: outcomes (consumed, diagnostic) {outs}" + ("" if ok else ": every parse of a statement beginning with these tokens reports a diagnostic"))
     R.floor("valid statement prefix probes", npf, 200)
+    # ---- C04.2 expression positions stay expression positions: every call site of the grammar that hands over to an
+    # expression parser is still reached with each specification expression-start token it was reached with when the
+    # table was frozen (a token diverted to a more special sub-parser truncates the expression: `for i in f(n)`)
+    from collections import defaultdict as _dd
+    per = _dd(list)
+    for (caller, callee, bb), mask in G.edge_first.items():
+        per[(caller, callee)].append((bb, mask))
+    nee = 0
+    for e in json.load(open(os.path.join(VERIF, "spec", "expr_edges.json"))):
+        nee += 1
+        lst = sorted(per.get((e["caller"], e["callee"]), []))
+        key = f"{short(e['caller'])}->{e['callee'].split('::')[-1]}:{e['ordinal']}"
+        if e["ordinal"] >= len(lst):
+            R.ob("C04.2-expression-position", key, False, prog.body(e["caller"]).at if prog.body(e["caller"]) else "", "this hand-over to the expression parser no longer exists (or is never reached): its admitted tokens cannot be compared; re-confirm the table (tools/gen_expr_edges.py)")
+            continue
+        mask = lst[e["ordinal"]][1]
+        lost = [k for k in e["admits"] if k in G.kdisc and not mask & (1 << G.kdisc[k])]
+        R.ob("C04.2-expression-position", key, not lost, prog.body(e["caller"]).blocks[lst[e["ordinal"]][0]].term["at"],
+             f"reached with all {len(e['admits'])} expression-start tokens of the frozen table" if not lost else f"expression-start token(s) {lost} no longer reach this expression position: they are diverted to another sub-parser, which cannot parse a general expression starting with them")
+    R.floor("expression positions", nee, 30)
     # ---- C04.3 assignment binds below binary operators
     import C05
     tab = C05.op_table(G)
